@@ -10,7 +10,8 @@ GNext ==
           /\ H([a |-> "NewStream", s |-> s, kind |-> kind, p |-> p, ans |-> a, mode |-> mode])
      \/ \E s \in Streams : Answer(s) /\ H([a |-> "Answer", s |-> s])
      \/ \E a \in {"A", "B", "none"} : SetAttacher(a) /\ H([a |-> "SetAttacher", who |-> a])
-     \/ \E k \in Conns, c \in Circs : ViaConnect(k, c) /\ H([a |-> "ViaConnect", k |-> k, c |-> c])
+     \/ \E k \in Conns, c \in Circs, late \in BOOLEAN : ViaConnect(k, c, late) /\ H([a |-> "ViaConnect", k |-> k, c |-> c, late |-> late])
+     \/ ConfAck /\ H([a |-> "ConfAck"])
      \/ \E k \in Conns, p \in Ports : ViaAddr(k, p) /\ H([a |-> "ViaAddr", k |-> k, p |-> p])
      \/ \E c \in Circs, to \in {"BUILDING", "BUILT", "GONE"} : CircStep(c, to) /\ H([a |-> "CircStep", c |-> c, to |-> to])
 GSpec == GInit /\ [][GNext]_<<vars, hist>>
